@@ -1762,20 +1762,16 @@ def plan_rwr(tier):
         t += [("pair", "s_tail", "bam", "whole")]
         t += [("pair", "s_tail", f, "whole") for f in ("bed", "fastq", "fasta2", "sizes", "gfa", "csv", "fasta")]
         t += [("single", x, "bam", "whole") for x in ("s_tail", "i_rev")]
-        return t, 8
+        return t, 9   # the plan takes about 4.5 s
     rest = [f for f in every if f not in ("bam",) + RWR_SMALL]
     t += [("single", x, f, "whole") for x in RWR_SELECTIONS for f in every]
     t += [("pair", "s_tail", f, "whole") for f in ("bam",) + RWR_SMALL]
     t += [("pair", x, "bam", "whole") for x in ("m_alt", "i_rev")]
     t += [(tpl, "s_tail", "bam", "whole") for tpl in ("old", "parent", "wrw")]
-    t += [("single", x, f, cs[f]) for x in RWR_SELECTIONS[:2] for f in every]
+    t += [("single", "m_alt", f, cs[f]) for f in every]
+    t += [("pair", "s_tail", "bam", cs["bam"])]
     t += [("pair0", "s_tail", f, "whole") for f in rest]
-    t += [("pair", "m_alt", f, "whole") for f in RWR_SMALL]
-    t += [(tpl, "s_tail", f, "whole") for tpl in ("old", "parent", "wrw") for f in RWR_SMALL]
-    t += [("pair", "s_tail", f, cs[f]) for f in ("bam",) + RWR_SMALL]
-    t += [("pair", "i_rev", f, "whole") for f in RWR_SMALL]
-    t += [("pair0", "m_alt", f, "whole") for f in rest]
-    return t, 36
+    return t, 40   # the plan takes about 30 s
 
 
 def run_rwr(col, r, tier):
@@ -1840,6 +1836,7 @@ def plan_decision(tier):
             lin += [(2, fmt, "whole", "mini"), (4, fmt, "whole", "pair")]
             if fam:
                 lin += [(2, fmt, cs[0], "mini"), (4, fmt, cs[0], "pair")]
+            if fmt == "gff":
                 extra += [(2, fmt, "whole", "core")]
             ret += [("core", "kinds" if fam else "rep", fmt, "whole"), ("core", "rep", fmt, cs[0])]
             if fam:
@@ -1850,8 +1847,7 @@ def plan_decision(tier):
         sec += [("one", fmt, "seq:read>read:AB"), ("mini", fmt, "seq:read>read:BA")]
         if tier != "quick":
             sec += [("mini", fmt, m) for m in SEQ_MAIN[2:]]
-    extra += [(3, "gff", "whole", "mini")] if tier != "quick" else []
-    return lin, extra, ret, sec, samples, (9 if tier == "quick" else 22)
+    return lin, extra, ret, sec, samples, (9 if tier == "quick" else 30)   # the plans take about 5 s / 23 s
 
 
 def run_decision(col, r, tier):
